@@ -33,6 +33,17 @@ double scale(double v);
 }
 """
 
+# a serializable instantiation whose C++ name contains a comma (its export goes through a typedef alias)
+TEXT_C = """namespace demo {
+template<K = {double, string}, V = {int}>
+class Pair {
+  Pair(const K& k, const V& v);
+  void serialize() const;
+  K first() const;
+};
+}
+"""
+
 EFFECT_NAMES = {'open', 'print', 'input', 'exec', 'eval', 'id', 'hash', 'set', 'frozenset', 'vars', 'globals', 'locals'}
 EFFECT_MODULES = {'os', 'osp', 'sys', 'time', 'random', 'datetime', 'uuid', 'tempfile', 'shutil', 'subprocess', 'Path', 'locale', 'getpass', 'socket'}
 ALLOWED = {
@@ -196,7 +207,7 @@ def reuse(rep):
 
     def fresh():
         return PybindWrapper(module_name='m', top_module_namespaces=[''], ignore_classes=[''], use_boost_serialization=True, module_template=tpl)
-    seqs = [[TEXT_A, TEXT_B, TEXT_A], [TEXT_B, TEXT_A], [TEXT_A, TEXT_A]]
+    seqs = [[TEXT_A, TEXT_B, TEXT_A], [TEXT_B, TEXT_A], [TEXT_A, TEXT_A], [TEXT_C, TEXT_C], [TEXT_C, TEXT_A, TEXT_C], [TEXT_A, TEXT_C, TEXT_B, TEXT_C]]
     for seq in seqs:
         w = fresh()
         for i, t in enumerate(seq):
